@@ -171,6 +171,7 @@ func ProfileByName(name string) *Profile {
 		p.W[KAct] = 10
 		p.IgnoreCase = 25
 		p.CharAlt = 30
+		p.SharedLeaf = 25
 		p.RuleLabels = true
 		p.PredAct = 35
 		p.W[KAnd], p.W[KNot] = 6, 6
